@@ -1,0 +1,34 @@
+//go:build verif
+
+package cache
+
+import "unsafe"
+
+// VerifSnapshot is a verification hook (build tag "verif" only).  It returns the
+// keys of the items linked into the usage list, oldest first, the keys of the
+// item map in unspecified order, and the internal byte total.  It does not
+// change the cache.
+func VerifSnapshot(c Cache) (listed, keys [][]byte, size uint) {
+	cc := c.(*cache)
+
+	cc.lock.Lock()
+	defer cc.lock.Unlock()
+
+	n := 0
+	for li := listFirst(&cc.usage); li != &cc.usage && li != nil; li = li.next {
+		it := (*item)(structPtr(unsafe.Pointer(li), unsafe.Offsetof(item{}.used)))
+		listed = append(listed, it.key)
+
+		n++
+		if n > len(cc.items)+1 {
+			// A corrupted list; do not loop forever.
+			break
+		}
+	}
+
+	for k := range cc.items {
+		keys = append(keys, []byte(k))
+	}
+
+	return listed, keys, cc.size
+}
